@@ -26,6 +26,16 @@ example : lexString (renderVal (.str "x' OR '1'='1".toList) ++ " AND b = 2".toLi
     = .ok ("x' OR '1'='1".toList, " AND b = 2".toList) :=
   C30_quote_roundtrip _ _ (by intro c r' h; injection h with h1 _; subst h1; decide)
 
+/-- the same at the scanner's level, for every string — U+0000 and every other code point
+included (the model's end of input is the end of the list, as the lexer's `is_eof()` is a position
+test; no character value is reserved as a sentinel): a bound string is exactly one string piece -/
+theorem C30_scan_quote (s : Str) : scan (renderVal (.str s)) = .ok [.str s] := by
+  have := scanGo_str false s [] (by intro c T' h; cases h)
+  simpa [scan, scanWith, renderVal, scanGo, finishMode, Except.map] using this
+
+example : scan (renderVal (.str ['x', Char.ofNat 0, 'y', '\'', Char.ofNat 0])) =
+    .ok [.str ['x', Char.ofNat 0, 'y', '\'', Char.ofNat 0]] := C30_scan_quote _
+
 /-! ## T2 -/
 
 theorem scanQ_hole (m : Mode) (cs : Str) (hm : codeMode m = true) :
